@@ -6,7 +6,8 @@ import z3
 from pyvc import sorts as S
 from pyvc import spec
 from pyvc.sorts import Node, Ty
-from pyvc.symex import is_ty
+from pyvc.symex import is_ty, is_z3
+from pyvc import builtins_impl as BI
 from pyvc.harness import Variant
 from . import core
 
@@ -99,4 +100,81 @@ def variants(world, tier="quick", only=None):
             continue
         for k in ARITIES.get(Kop, (S.FIXED_ARITY.get(Kop),)):
             out.append(TypingRuleVariant(world, Kop, k, target))
+    return out
+
+
+# ---------------------------------------------------------------------------
+# pysmt/typing.py at the object level: which type objects are the same sort
+# ---------------------------------------------------------------------------
+class TypeIdentityVariant(Variant):
+    """The other contracts use sorts as values of the datatype Ty (two sorts are equal iff they are the same built-in sort
+    or instances of the same declaration on equal arguments).  Here the real constructors and the real __eq__ / __hash__ of
+    the type objects run from source: a sort declared by the user (name arbitrary, also the name of a built-in sort) is
+    never equal to a built-in sort, two declared nullary sorts are equal exactly when their names are, the built-in
+    singletons are pairwise different and equal to themselves, and equal sorts have equal hashes."""
+    prop_ids = ("C03",)
+
+    def __init__(self, world, left, right):
+        self.world, self.left, self.right = world, left, right
+        self.qualname = "pysmt.typing.PySMTType.__eq__"
+        self.name = "sorts:%s==%s" % (left, right)
+
+    BUILTIN = {"Bool": "_BoolType", "Int": "_IntType", "Real": "_RealType", "String": "_StringType"}
+
+    def mk(self, ex, what, tag):
+        from pyvc.symex import ClassRef
+        W = self.world
+        if what in self.BUILTIN:
+            return W.instantiate(ex, ClassRef("pysmt.typing." + self.BUILTIN[what]), [], {}), what
+        # a declared sort of arity 0: TypeManager.get_type_instance builds PySMTType(decl=<declaration>, args=<the tuple of arguments>)
+        name = z3.Const("declared_name_" + tag, z3.StringSort())
+        ex.assume(z3.Length(name) > 0)
+        decl = W.instantiate(ex, ClassRef("pysmt.typing._TypeDecl"), [name, 0], {})
+        ex.call(W.getattr(ex, decl, "set_custom_type_flag"), [], {})
+        return W.instantiate(ex, ClassRef("pysmt.typing.PySMTType"), [], {"decl": decl, "args": ()}), name
+
+    def setup(self, ex):
+        W = self.world
+        for q in [q for q in list(W.contracts) + list(W.builtins) if str(q).startswith("new:pysmt.typing.")]:
+            W.contracts.pop(q, None)
+        self.a, self.na = self.mk(ex, self.left, "a")
+        self.b, self.nb = self.mk(ex, self.right, "b")
+        return W.getattr(ex, self.a, "__eq__"), [self.b], {}
+
+    def check(self, ex, outcome):
+        kind, r = outcome
+        if kind == "raise":
+            return [("no-exception", z3.BoolVal(False))]
+        W = self.world
+        rz = r if is_z3(r) else z3.BoolVal(bool(r))
+        lb, rb = self.left in self.BUILTIN, self.right in self.BUILTIN
+        if lb and rb:
+            want = z3.BoolVal(self.left == self.right)
+        elif lb != rb:
+            want = z3.BoolVal(False)          # a declared sort is not a built-in sort, whatever its name
+        else:
+            want = self.na == self.nb
+        goals = [("same-sort-exactly-when-specified", rz == want)]
+        ha = ex.call(W.getattr(ex, self.a, "__hash__"), [], {})
+        hb = ex.call(W.getattr(ex, self.b, "__hash__"), [], {})
+        try:
+            he = BI._eq(W, ex, ha, hb)
+            he = he if is_z3(he) else z3.BoolVal(bool(he))
+            goals.append(("equal-sorts-have-equal-hashes", z3.Implies(rz, he)))
+        except Exception:
+            pass
+        return goals
+
+
+_base_variants3 = variants
+
+
+def variants(world, tier="quick", only=None):
+    out = _base_variants3(world, tier, None)
+    kinds = ["Bool", "Int", "Real", "String", "declared"]
+    for i, a in enumerate(kinds):
+        for b in kinds[i:] if tier == "quick" else kinds:
+            out.append(TypeIdentityVariant(world, a, b))
+    if only:
+        out = [v for v in out if any(o in v.name for o in only)]
     return out
